@@ -38,7 +38,7 @@ CheckStore(it) ==
         l2 == o.R = m.R /\ o.D = m.D /\ o.RN = m.RN /\ o.DN = m.DN
     IN /\ Assert(WellFormed(S), <<"ill-formed store in item", it.id>>)
        /\ Report(it, l1, l2)
-       /\ seen' = IF crossOk THEN seen \cup pairs ELSE seen
+       /\ seen' = IF l1 = {} THEN seen \cup pairs ELSE seen      \* only cases that satisfy every clause teach the count -> percentile-set function
 
 CheckDoc(it) ==
     LET doc == [has |-> SeqToSet(it.doc.has), g |-> it.doc.g, hasOps |-> it.doc.hasOps, ops |-> it.doc.ops]
